@@ -107,6 +107,24 @@ Theorem C18_inherit_of_own_binding : forall fx d im p,
 Proof. exact inherit_of_own_binding_unresolvable. Qed.
 Print Assumptions C18_inherit_of_own_binding.
 
+(* required_symbols (two passes: subtract all bindings, THEN add all bounds and the parent): the bound of every type
+   parameter is required even when another parameter carries the same name (`Lan(Host <- Node, Node <- Switch)` waits for
+   the global Node), every other name a submodule uses is required unless the module binds it; hence the ordering loop
+   places the bound's definition first and the lookup of a placeholder's interface cannot hit expect("unreachable ..") *)
+Theorem C18_bounds_are_required : forall self m,
+  (forall g, In g (tc_args self) -> In (g_bound g) (required_symbols self m)) /\
+  (forall f t s, In (f, t) (md_subs m) -> (s = tc_ident t \/ In s (tc_args t)) -> is_binding (tc_args self) s = false ->
+                 In s (required_symbols self m)).
+Proof. intros self m. split; [apply bounds_are_required|apply unbound_names_are_required]. Qed.
+Print Assumptions C18_bounds_are_required.
+
+Theorem C18_shadowed_bound_without_definition : forall fx d im g,
+  In im (d_modules d) -> In g (tc_args (fst im)) ->
+  (forall im', In im' (d_modules d) -> tc_ident (fst im') <> g_bound g) ->
+  transform fx d = Err K_UNRESOLVABLE_DEPENDENCY.
+Proof. exact shadowed_bound_unresolvable. Qed.
+Print Assumptions C18_shadowed_bound_without_definition.
+
 Theorem C18_dependency_cycle_is_unresolvable : forall fx d (C : list (TypClause Generic * ModuleDef)),
   C <> [] -> incl C (d_modules d) ->
   (forall im, In im C -> exists im', In im' C /\ In (tc_ident (fst im')) (required_symbols (fst im) (snd im))) ->
